@@ -29,7 +29,7 @@ def cut_points(size, offsets, tier, rng):
     pts = set()
     small = size <= (2048 if tier == "quick" else 16384)
     if small:
-        pts.update(range(0, size, 1 if tier == "thorough" else 5))
+        pts.update(range(0, size, 1 if tier == "thorough" or size <= 1200 else 5))
     want = 90 if tier == "quick" else 1500
     offs = [o for o in offsets if o <= size]
     if len(offs) > want:
@@ -68,6 +68,9 @@ def run(tier, seed, replay=None):
     else:
         bcases_replay = None
         files = sorted(f for f in os.listdir(samples_dir) if f.endswith(".nif"))
+        # geometry kinds no sample contains: API-built files (strip shapes incl. a degenerate 2-point strip; plain shapes)
+        files += ["@synth:strips:ob", "@synth:strips:fo3", "@synth:strips:sk", "@synth:shape:ob", "@synth:shape:sk",
+                  "@synth:shape:sse", "@synth:shape:fo4", "@synth:shape:fo76"]
         b = be.par_run(asan, "trunc", ["bounds name=%s" % f for f in files], timeout=120, env=env)
         fcases = []
         for f, (_, l, crash) in zip(files, b):
